@@ -280,6 +280,78 @@ def law_after_moves():
     return None
 
 
+def mutator_sequence():
+    """The mutation *step* across iterations: two consecutive Mutator.run calls at the same temperature with different mode
+    statistics (as after a refit).  In the second call every accept / reject decision must be the one the kernel contract gives for
+    the statistics of the second call: flat likelihood, hard boundaries, so alpha = min(1, t_nu(u) / t_nu(u')) for tpCN and 1 for
+    RWM, observed through the decisions at fixed uniform draws (same proposals each time: generator reseeded)."""
+    from tempest.state_manager import StateManager
+    from tempest.steps.mutate import Mutator
+    d, n = 2, 48
+    rng = np.random.RandomState(31)
+    st1 = ModeStatistics(np.array([[0.35, 0.4]]), np.array([[[0.02, 0.004], [0.004, 0.01]]]), np.array([4.0]))
+    st2 = ModeStatistics(np.array([[0.62, 0.55]]), np.array([[[0.006, -0.003], [-0.003, 0.03]]]), np.array([12.0]))
+    u_start = np.clip(0.5 + 0.12 * rng.standard_normal((n, d)), 0.05, 0.95)
+    for kernel in ("tpcn", "rwm"):
+        for c in (0.15, 0.4, 0.65, 0.9):
+            sm = StateManager(d)
+            sm.update_current({"u": u_start.copy(), "x": u_start.copy(), "logl": np.zeros(n), "beta": 1.0, "logz": 0.0, "iter": 3, "calls": 0,
+                               "assignments": np.zeros(n, dtype=int), "ess": 1.0})
+            props = []
+
+            def pt(v, props=props):
+                props.append(np.array(v, dtype=float))
+                return np.array(v, dtype=float)
+            try:
+                mu_ = Mutator(sm, pt, lambda X: (np.zeros(len(X)), None), None, n, d, 1, 1, kernel, None, None, False)
+                np.random.seed(5)
+                mu_.run(st1)
+            except Exception:
+                return None            # constructor / call signature differs: this probe does not apply
+            sm.update_current({"u": u_start.copy(), "x": u_start.copy(), "logl": np.zeros(n), "assignments": np.zeros(n, dtype=int)})
+            del props[:]
+            saved = {nm: getattr(np.random, nm) for nm in ("rand", "random", "random_sample", "uniform")}
+            state_rng = np.random.get_state()
+            np.random.seed(6)
+            calls_ = {"n": 0}
+
+            def val(c=c, calls_=calls_):
+                # the first uniform draw decides the first kernel iteration; every later iteration (the kernel makes at least
+                # n_steps * n_dim of them) rejects everything, so the final state shows the decisions of the first iteration
+                calls_["n"] += 1
+                return c if calls_["n"] == 1 else 2.0
+            np.random.rand = lambda *s_: (lambda v: np.full(s_, v) if s_ else v)(val())
+            np.random.random = np.random.random_sample = lambda size=None: (lambda v: v if size is None else np.full(size, v))(val())
+            np.random.uniform = lambda low=0.0, high=1.0, size=None: (lambda v: (low + (high - low) * v) if size is None else np.full(size, low + (high - low) * v))(val())
+            try:
+                mu_.run(st2)
+            except Exception as e:
+                return f"second Mutator.run at the same temperature raised {type(e).__name__}: {e}"
+            finally:
+                for nm, fn_ in saved.items():
+                    setattr(np.random, nm, fn_)
+                np.random.set_state(state_rng)
+            if len(props) < n:
+                return None
+            up = np.array(props[:n])
+            after = np.asarray(sm.get_current("u"))
+            moved = np.any(after != u_start, axis=1)
+            inb = np.all((up >= 0) & (up <= 1), axis=1)
+            if kernel == "tpcn":
+                lt = lambda V: stats.multivariate_t.logpdf(V, loc=st2.means[0], shape=st2.covariances[0], df=st2.degrees_of_freedom[0])
+                want = np.minimum(1.0, np.exp(lt(u_start) - lt(up)))
+            else:
+                want = np.ones(n)
+            for j in range(n):
+                if abs(want[j] - c) < 1e-6 or np.array_equal(up[j], u_start[j]):
+                    continue
+                should = bool(inb[j] and c < want[j])
+                if bool(moved[j]) != should:
+                    return (f"{kernel}: in the second Mutator.run at beta = 1 (new mode statistics) walker {j} was {'accepted' if moved[j] else 'rejected'} at uniform draw "
+                            f"{c} although the acceptance probability for the *current* statistics is {float(want[j])!r}: the kernel still uses statistics of the previous call")
+    return None
+
+
 def mode_statistics_consistent():
     rng = np.random.RandomState(8)
     for scale in (1.0, 1e-4, 1e-6):
@@ -469,7 +541,7 @@ def main():
                 return
     if not inp.get("kernel"):
         for name, fn in (("rejection", hard_boundary_rejection), ("whole-move-rejection", whole_move_rejection),
-                         ("mode-statistics", mode_statistics_consistent), ("law-after-moves", law_after_moves), ("accept-statement", accept_statement), ("sigma-range", sigma_range),
+                         ("mode-statistics", mode_statistics_consistent), ("law-after-moves", law_after_moves), ("mutator-sequence", mutator_sequence), ("accept-statement", accept_statement), ("sigma-range", sigma_range),
                          ("wiring", wiring)):
             tried += 1
             try:
